@@ -1114,6 +1114,8 @@ class Interp:
                 if isinstance(m, tuple) and m[0] == '__property__':
                     return m[1](self, obj)
                 return BoundMethod(obj, attr)
+            if getattr(obj, 'closed', False):
+                raise PyRaise(ExcVal('AttributeError', (attr,)))
             raise Unsupported("attribute %s of %s is not modelled" % (attr, obj.cls))
         if isinstance(obj, ModRef):
             full = obj.name + '.' + attr
